@@ -1131,7 +1131,155 @@ def thread_start_failure_case(ctx, case):
     ctx.label('thread_start_failure')
 
 
+def thread_exit_case(ctx, case):
+    """'after a connection ends for any reason ... the same object can
+    connect again': the networking thread is ended from inside by something
+    that is not an error to be handled - a listener calls sys.exit() (the
+    interpreter ends the *thread*, silently), or lets a KeyboardInterrupt /
+    GeneratorExit / BaseException of its own through.  No thread performs
+    I/O any more, so the next connect()/status() is served, that session is
+    the active one (a further connect() is refused, disturbs nothing) and
+    disconnect() ends it.
+    case {version, exc: name, where: 'listener'|'early'|'outgoing',
+          then: 'connect'|'status'}"""
+    import time
+    from minecraft.exceptions import InvalidState
+    from minecraft.networking.packets import clientbound as cb, \
+        serverbound as sb
+    version = case['version']
+    ctx.ev()
+
+    class Leave(BaseException):
+        pass
+    klass = {'SystemExit': SystemExit, 'KeyboardInterrupt': KeyboardInterrupt,
+             'GeneratorExit': GeneratorExit, 'BaseException': Leave}[
+                 case['exc']]
+    first = servers.Server({'version': version, 'login': [('success',)],
+                            'play': {'bursts': [[('keep_alive',
+                                                  {'keep_alive_id': 7})]],
+                                     'mode': 'all', 'end': 'silent'}})
+    second = servers.Server({'version': version, 'login': [('success',)],
+                             'status': {'reply': '{"version":{"protocol":'
+                                        '%d}}' % version},
+                             'play': {'bursts': [[('keep_alive',
+                                                   {'keep_alive_id': 8})]],
+                                      'mode': 'all', 'end': 'silent'}})
+    world = vnet.World(servers=[first, second])
+    fired = []
+    statuses = []
+    with vnet.installed(world):
+        conn, o = servers.make_connection(world, allowed_versions={version})
+
+        def leave(p):
+            if not fired:
+                fired.append(1)
+                raise klass()
+        if case['where'] == 'outgoing':
+            conn.register_packet_listener(leave, sb.play.KeepAlivePacket,
+                                          outgoing=True)
+        else:
+            conn.register_packet_listener(leave, cb.play.KeepAlivePacket,
+                                          early=case['where'] == 'early')
+        try:
+            conn.connect()
+            state = world.settle(timeout=20.0)
+            if not fired or state != 'done':
+                if state == 'timeout' or not fired:
+                    from vlib.core import HarnessError
+                    raise HarnessError('C16 thread_exit: first session did '
+                                       'not end (%s)' % state)
+                ctx.fail('thread_exit', 'S4-thread-not-terminated', case,
+                         state)
+                world.kill_all()
+                return
+            err = None
+            try:
+                if case['then'] == 'connect':
+                    conn.connect()
+                else:
+                    conn.status(handle_status=statuses.append,
+                                handle_ping=False)
+            except Exception as e:
+                err = repr(e)
+            if err is not None:
+                ctx.fail('thread_exit', 'S3-not-reusable-after-thread-exit',
+                         case, err, 'a new session')
+                world.kill_all()
+                return
+            if case['then'] == 'status':
+                state2 = world.settle(timeout=20.0)
+                if statuses != [{'version': {'protocol': version}}] or \
+                        state2 != 'done':
+                    ctx.fail('thread_exit', 'S3-status-after-thread-exit',
+                             case, (statuses, state2))
+                    world.kill_all()
+                    return
+            else:
+                for _ in range(8000):
+                    if second.replies or o.exceptions:
+                        break
+                    time.sleep(0.001)
+                world.wait_idle(second.link, conn)
+                if second.replies != [('keep_alive', 8)] or second.errors:
+                    ctx.fail('thread_exit', 'S3-session-after-thread-exit',
+                             case, (second.replies, second.errors[:2],
+                                    [repr(e[0]) for e in o.exceptions][:2]))
+                    world.kill_all()
+                    return
+                try:
+                    conn.connect()
+                    err = 'accepted'
+                except InvalidState:
+                    err = None
+                except Exception as e:
+                    err = repr(e)
+                if err:
+                    ctx.fail('thread_exit', 'S2-accepted-although-active',
+                             case, err, 'InvalidState')
+                    world.kill_all()
+                    return
+                conn.disconnect()
+                conn.disconnect()
+                state2 = world.settle(timeout=20.0)
+                if state2 != 'done':
+                    ctx.fail('thread_exit', 'S4-thread-not-terminated', case,
+                             state2)
+                    world.kill_all()
+                    return
+        except Exception as e:
+            if type(e).__name__ == 'HarnessError':
+                world.kill_all()
+                raise
+            ctx.fail('thread_exit', 'S-raised', case, exc=e)
+            world.kill_all()
+            return
+    ctx.nt('thread_exit', repr(case))
+    ctx.label('thread_ended_by_' + case['exc'])
+
+
+def t_thread_exit(ctx):
+    k = 0
+    for v in (757, 47):
+        for exc in ('SystemExit', 'KeyboardInterrupt', 'GeneratorExit',
+                    'BaseException'):
+            for where in ('listener', 'early', 'outgoing'):
+                k += 1
+                thread_exit_case(ctx, {'version': v, 'exc': exc,
+                                       'where': where,
+                                       'then': ('connect', 'status')[k % 2]})
+    thread_exit_case(ctx, {'version': 340, 'exc': 'SystemExit',
+                           'where': 'listener', 'then': 'connect'})
+    thread_exit_case(ctx, {'version': 340, 'exc': 'SystemExit',
+                           'where': 'listener', 'then': 'status'})
+    ctx.sample({'version': 340, 'exc': 'SystemExit', 'where': 'listener',
+                'then': 'connect'}, 'thread_exit')
+    ctx.exhaustive_done('thread ended by SystemExit / KeyboardInterrupt / '
+                        'GeneratorExit / a BaseException from 3 listener '
+                        'kinds at 2 protocols, then connect() or status()')
+
+
 COMPONENTS = {'thread_start': thread_start_failure_case,
+              'thread_exit': thread_exit_case,
               'exit_reconnect': exit_reconnect_case,
               'dead_peer': dead_peer_disconnect_case,
               'status_poller': status_poller_case,
@@ -1351,6 +1499,7 @@ def tasks(tier):
           ('status_poller', t_status_poller, {}),
           ('dead_peer', t_dead_peer, {}),
           ('thread_start', t_thread_start, {}),
+          ('thread_exit', t_thread_exit, {}),
           ('many_reconnects', t_many_reconnects,
            dict(n=1100 if q else 3000))]
     for i in range(len(SMALL)):
